@@ -218,7 +218,9 @@ def plan_C11(seed, run, engine, tier="quick"):
             params["method"] = "breslow" if args["method"] == "efron" else "efron"
         if cls in ("Lasso", "ElasticNet", "WeightedLasso", "MCPRegression") and rng.random() < 0.3:
             params["positive"] = not args["positive"]
-        if "fit_intercept" in args and rng.random() < 0.2 and not args.get("warm_start"):
+        if "fit_intercept" in args and rng.random() < 0.2:
+            # (also on warm_start objects: the previous fit's intercept_ is state the next fit
+            # must not mix into a problem without intercept)
             params["fit_intercept"] = not args["fit_intercept"]
         ops.append(dict(op="set_params", id="e0", params=params))
         ops.append(dict(op="fit", id="e0", data=0, container=cont, labels=ops[1]["labels"]))
